@@ -1,4 +1,5 @@
 import SqfModel.VM.Run
+import SqfModel.Lemmas.HeapAcyclic
 /-!
 # C08 — arrays are shared references, copies are independent, never cyclic
 
@@ -163,6 +164,172 @@ theorem C08_array_through_map_detected (m : M) (id j : Nat) (k : Val)
   simp only [reachesC, List.any_cons, List.any_nil, Bool.or_false, Bool.false_and, Bool.false_or]
   simp only [List.any_eq_true, List.mem_flatMap]
   exact ⟨.ref id, ⟨(k, .ref id), hmem, by simp⟩, by simp⟩
+
+/-! ## 5. Acyclicity is an invariant of the inserting operators
+
+`Acyclic h mp` (`Lemmas/HeapAcyclic.lean`): the containment tree below every value is well founded. The
+cycle test is *sound* for every fuel (running out of fuel refuses), so an accepted insertion can never
+close a cycle — through arrays, through hash maps, or through any mixture of the two. -/
+
+theorem log_heap (m : M) (code : Nat) : (m.log code).heap = m.heap := by
+  unfold M.log; simp only; split <;> rfl
+theorem log_maps (m : M) (code : Nat) : (m.log code).maps = m.maps := by
+  unfold M.log; simp only; split <;> rfl
+
+/-- an element that may be stored in array `id`: an element the array already holds, a value that
+passed the cycle test, or a value that is no container -/
+def Admissible (m : M) (id : Nat) (x : Val) : Prop :=
+  x ∈ m.arr id ∨ wouldCycle m id x = false ∨ ((∀ j, x ≠ .ref j) ∧ (∀ j, x ≠ .mapref j))
+
+/-- rewriting an array cell with admissible elements keeps the heap acyclic -/
+theorem acyclic_setArr (m : M) (id : Nat) (cell : List Val) (ha : Acyclic m.heap m.maps)
+    (hc : ∀ x, x ∈ cell → Admissible m id x) : Acyclic (m.setArr id cell).heap (m.setArr id cell).maps := by
+  intro v
+  show Ends (m.heap.set id cell) m.maps v
+  refine ends_after_setArr m.heap m.maps id cell ?_ v (ha v)
+  intro x hx
+  rcases hc x hx with hold | hchk | hatom
+  · exact Or.inl hold
+  · right
+    unfold wouldCycle at hchk
+    exact reachesC_false_ends m.heap (m.heap.set id cell) m.maps id (fun j hj => getD_set_ne m.heap id j cell hj) _ [x] hchk x
+      (by simp)
+  · exact Or.inr (Ends.atom x hatom.1 hatom.2)
+
+theorem nil_admissible (m : M) (id : Nat) : Admissible m id .nil :=
+  Or.inr (Or.inr ⟨fun j => by simp, fun j => by simp⟩)
+
+/-- **pushBack never closes a cycle** -/
+theorem C08_pushBack_acyclic (m : M) (id : Nat) (v : Val) (res : OpRes) (ha : Acyclic m.heap m.maps)
+    (hr : bop_pushback (.ref id) v m = some res) : Acyclic res.1.heap res.1.maps := by
+  unfold bop_pushback at hr
+  simp only [pure'] at hr
+  split at hr
+  · have : res = (m.log Diag.runtime_ArrayRecursion, [], .nil) := by simpa using hr.symm
+    subst this; simp only [log_heap, log_maps]; exact ha
+  · next hc =>
+    have : res = (m.setArr id (m.arr id ++ [v]), [], num (m.arr id).length) := by simpa using hr.symm
+    subst this
+    refine acyclic_setArr m id _ ha ?_
+    intro x hx
+    simp only [List.mem_append, List.mem_singleton] at hx
+    rcases hx with hx | hx
+    · exact Or.inl hx
+    · subst hx; exact Or.inr (Or.inl (by simpa using hc))
+
+/-- **pushBackUnique never closes a cycle** -/
+theorem C08_pushBackUnique_acyclic (m : M) (id : Nat) (v : Val) (res : OpRes) (ha : Acyclic m.heap m.maps)
+    (hr : bop_pushbackunique (.ref id) v m = some res) : Acyclic res.1.heap res.1.maps := by
+  unfold bop_pushbackunique at hr
+  simp only [pure'] at hr
+  split at hr
+  · have : res = (m, [], .num (Dec.ofInt (-1))) := by simpa using hr.symm
+    subst this; exact ha
+  · split at hr
+    · have : res = (m.log Diag.runtime_ArrayRecursion, [], .nil) := by simpa using hr.symm
+      subst this; simp only [log_heap, log_maps]; exact ha
+    · next hc =>
+      have : res = (m.setArr id (m.arr id ++ [v]), [], num (m.arr id).length) := by simpa using hr.symm
+      subst this
+      refine acyclic_setArr m id _ ha ?_
+      intro x hx
+      simp only [List.mem_append, List.mem_singleton] at hx
+      rcases hx with hx | hx
+      · exact Or.inl hx
+      · subst hx; exact Or.inr (Or.inl (by simpa using hc))
+
+/-- **append never closes a cycle** -/
+theorem C08_append_acyclic (m : M) (id j : Nat) (res : OpRes) (ha : Acyclic m.heap m.maps)
+    (hr : bop_append (.ref id) (.ref j) m = some res) : Acyclic res.1.heap res.1.maps := by
+  unfold bop_append at hr
+  simp only [pure'] at hr
+  split at hr
+  · have : res = (m.log Diag.runtime_ArrayRecursion, [], .nil) := by simpa using hr.symm
+    subst this; simp only [log_heap, log_maps]; exact ha
+  · next hc =>
+    have : res = (m.setArr id (m.arr id ++ m.arr j), [], .nil) := by simpa using hr.symm
+    subst this
+    refine acyclic_setArr m id _ ha ?_
+    intro x hx
+    simp only [List.mem_append] at hx
+    rcases hx with hx | hx
+    · exact Or.inl hx
+    · have hall := List.any_eq_false.mp (by simpa using hc) x hx
+      exact Or.inr (Or.inl (by simpa using hall))
+
+/-- **set never closes a cycle** (neither the accepted store nor the growth that stays after a refusal) -/
+theorem C08_set_acyclic (m : M) (id p : Nat) (res : OpRes) (ha : Acyclic m.heap m.maps)
+    (hr : bop_set (.ref id) (.ref p) m = some res) : Acyclic res.1.heap res.1.maps := by
+  unfold bop_set at hr
+  simp only [pure'] at hr
+  have grown : ∀ (i : Nat) x, x ∈ (if (m.arr id).length ≤ i then m.arr id ++ List.replicate (i + 1 - (m.arr id).length) Val.nil else m.arr id) →
+      Admissible m id x := by
+    intro i x hx
+    split at hx
+    · simp only [List.mem_append, List.mem_replicate] at hx
+      rcases hx with hx | hx
+      · exact Or.inl hx
+      · rw [hx.2]; exact nil_admissible m id
+    · exact Or.inl hx
+  split at hr
+  · have : res = (m.log Diag.runtime_ExpectedArraySizeMissmatch, [], .nil) := by simpa using hr.symm
+    subst this; simp only [log_heap, log_maps]; exact ha
+  · split at hr
+    · next d hd =>
+      split at hr
+      · have : res = (m.log Diag.runtime_NegativeIndex, [], .nil) := by simpa using hr.symm
+        subst this; simp only [log_heap, log_maps]; exact ha
+      · split at hr
+        · have e : res = ((m.setArr id (if (m.arr id).length ≤ (truncInt d).toNat then m.arr id ++ List.replicate ((truncInt d).toNat + 1 - (m.arr id).length) Val.nil else m.arr id)).log Diag.runtime_ArrayRecursion, [], .nil) := by
+            simpa using hr.symm
+          subst e
+          simp only [log_heap, log_maps]
+          exact acyclic_setArr m id _ ha (grown _)
+        · next hc =>
+          have e : res = (m.setArr id ((if (m.arr id).length ≤ (truncInt d).toNat then m.arr id ++ List.replicate ((truncInt d).toNat + 1 - (m.arr id).length) Val.nil else m.arr id).set (truncInt d).toNat (nth (m.arr p) 1)), [], .nil) := by
+            simpa using hr.symm
+          subst e
+          refine acyclic_setArr m id _ ha ?_
+          intro x hx
+          rcases List.mem_or_eq_of_mem_set hx with hx | hx
+          · exact grown _ x hx
+          · subst hx; exact Or.inr (Or.inl (by simpa using hc))
+    · have : res = (m.log Diag.runtime_ExpectedArrayTypeMissmatch, [], .nil) := by simpa using hr.symm
+      subst this; simp only [log_heap, log_maps]; exact ha
+
+/-- a hash map cell rewritten with entries whose keys and values are old or passed the test stays acyclic -/
+theorem acyclic_setMap (m : M) (id : Nat) (cell : List (Val × Val)) (ha : Acyclic m.heap m.maps)
+    (hc : ∀ e, e ∈ cell →
+      (e.1 ∈ (m.map id).flatMap (fun e => [e.1, e.2]) ∨ wouldCycleMap m id e.1 = false) ∧
+      (e.2 ∈ (m.map id).flatMap (fun e => [e.1, e.2]) ∨ wouldCycleMap m id e.2 = false)) :
+    Acyclic (m.setMap id cell).heap (m.setMap id cell).maps := by
+  intro v
+  show Ends m.heap (m.maps.set id cell) v
+  have chk : ∀ x, wouldCycleMap m id x = false → Ends m.heap (m.maps.set id cell) x := by
+    intro x hx
+    unfold wouldCycleMap at hx
+    exact reachesC_true_target_ends m.heap m.maps (m.maps.set id cell) id (fun j hj => mgetD_set_ne m.maps id j cell hj) _ [x] hx x
+      (by simp)
+  refine ends_after_setMap m.heap m.maps id cell ?_ v (ha v)
+  intro e he
+  refine ⟨?_, ?_⟩
+  · rcases (hc e he).1 with h1 | h1
+    · exact Or.inl h1
+    · exact Or.inr (chk _ h1)
+  · rcases (hc e he).2 with h1 | h1
+    · exact Or.inl h1
+    · exact Or.inr (chk _ h1)
+
+/-- allocation of a fresh array over bounded, well-founded elements (what `+`, `select`, `apply`, the copy
+operators do) keeps a bounded heap acyclic -/
+theorem C08_alloc_acyclic (m : M) (xs : List Val) (hb : Bounded m.heap m.maps) (ha : Acyclic m.heap m.maps)
+    (hxs : ∀ x, x ∈ xs → ValOk m.heap m.maps x) (v : Val) (hv : ValOk m.heap m.maps v ∨ v = .ref m.heap.length) :
+    Ends (m.alloc xs).1.heap (m.alloc xs).1.maps v := by
+  show Ends (m.heap ++ [xs]) m.maps v
+  rcases hv with hv | hv
+  · exact ends_after_alloc m.heap m.maps xs hb v (ha v) hv
+  · subst hv
+    exact ends_new_cell m.heap m.maps xs hb (fun x hx => ⟨ha x, hxs x hx⟩)
 
 /-! ## Non-vacuity -/
 
